@@ -17,7 +17,11 @@ Inductive astep :=
 | SPost (id : string) (b : body)
 | SCreate (action value : option string)
 | SDelete (id : string)
-| SDetails (id : string).
+| SDetails (id : string)
+| SSurgery (loc : string) (stamp : Z) (mode : nat) (line : list status).
+(* SSurgery: a file-level shape left by a kill, in terms of the abstract history (the file level is C07's):
+   mode 0 = a torn prefix of a line appended (no status: nothing changes), 1 = a complete status without its newline
+   (one more status of that run), 2 = the compacted copy next to the original (readers see only the last status) *)
 
 Record aobs := mkAObs {
   ao_code : nat; ao_spawns : list (list string); ao_stops : list string;
@@ -45,6 +49,17 @@ Section Replay.
     | SCreate ac v => let '(c, a') := create valid meta_ok dir tmpl a ac v in (c, a', rok, [])
     | SDelete id => let '(c, a') := delete valid graph_ok meta_ok dir a id in (c, a', rok, [])
     | SDetails _ => (200, a, rok, [])
+    | SSurgery l z mode ln =>
+        let f (r : run) : run :=
+          if Z.eqb (r_stamp r) z
+          then match mode with
+               | 1 => mkRun (r_stamp r) (r_lines r ++ ln)
+               | 2 => mkRun (r_stamp r) (match rev (r_lines r) with s :: _ => [s] | [] => [] end)
+               | _ => r
+               end
+          else r in
+        let w := a_w a in
+        (0, set_world a (set_hist w (h_set l (map f (h_get l (w_hist w))) (w_hist w))), rok, [])
     end.
 
   Fixpoint areplay (a : aworld) (rok : bool) (i : nat) (l : list (astep * aobs)) : option (nat * nat) :=
